@@ -37,68 +37,97 @@ def P(pid, level, text, note, explanation, standins=(), assumptions=(), trusted_
 
 P("C01", "other",
   "Deductive: the dimensional expansion (_get_dimensionality_recurse: inductive step over the definition table via a "
-  "Lean-proved finite-sum theory) and _get_dimensionality with its cache-coherence invariant are proved for every "
-  "well-formed registry. Bounded: the conversion gate, predicates, decorator and compatible-unit listings are compared with an "
-  "independent Dim on all 164k ordered unit pairs of the default registry and on generated registries.",
-  "Assumed contract: get_name (decided under C08). RegWF is evaluated concretely on the default registry by the stand-ins' "
-  "independent reference, not proved of the definition parser.",
-  MIXED + ": proved = dimensional expansion and its memo; bounded = `to` succeeds iff Dim equal, agreement of "
-  "is_compatible_with / check / @check / get_compatible_units (exhaustive over the default registry's unit pairs).",
-  standins=["standins.c01_compat", "standins.c02_warmcache"])
+  "Lean-proved finite-sum theory), _get_dimensionality with its cache-coherence invariant, _get_conversion_factor and "
+  "_convert of the plain registry (DimensionalityError is raised IF AND ONLY IF the two containers differ in some base "
+  "dimension; otherwise the value is multiplied by the Lean-defined factor ratio) and Quantity.dimensionality are proved for "
+  "every well-formed registry. Bounded: the public gate (to/ito/convert through the non-multiplicative and context layers), "
+  "predicates, decorator and compatible-unit listings are compared with an independent Dim on all 164k ordered unit pairs of "
+  "the default registry and on generated registries, cold and warm.",
+  "Assumed contracts: get_name (decided under C08; A7: modelled as non-modifying), the registry's UnitsContainer factory, "
+  "Quantity.to (wrapper around convert). RegWF is evaluated concretely on the default registry by the stand-ins' independent "
+  "reference, not proved of the definition parser.",
+  MIXED + ": proved = dimensional expansion and its memo, error-iff-dimension-differs of the plain _convert; bounded = the same "
+  "biconditional through the public API, agreement of is_compatible_with / check / @check / get_compatible_units.",
+  standins=["standins.c01_compat", "standins.c02_warmcache", "standins.c01_check_kwargs"])
 P("C02", "other",
-  "Deductive: _get_root_units_recurse (factor = product of scale**exponent along the reference chain; root-unit exponents) is "
-  "proved against a Lean-checked finite-product theory. Bounded: exactness, numeric-type preservation, identity / inverse / "
-  "path independence over all ~8000 same-dimension pairs of the default registry in Fraction, Decimal and float registries.",
-  "Assumed: get_name; positivity of scales (one negative scale in the default registry, electron_g_factor, is outside the proof).",
-  MIXED + ": proved = scale accumulation and root-unit exponents for all registries satisfying RegFac; bounded = exact ratios, "
-  "type preservation, ulp bound (float), path independence on the default registry.",
+  "Deductive: _get_root_units_recurse (factor = product of scale**exponent along the reference chain; root-unit exponents), "
+  "_get_root_units with its memo, _get_conversion_factor (the factor is the ratio of the two root factors) and _convert are "
+  "proved against a Lean-checked finite-product theory; Scale/Offset converter maps and their inverses. Bounded: exactness, "
+  "numeric-type preservation, identity / inverse / path independence over all ~8000 same-dimension pairs of the default "
+  "registry in Fraction, Decimal and float registries, cold and warm memo.",
+  "Assumed: get_name; Converter.is_multiplicative; positivity of scales (one negative scale in the default registry, "
+  "electron_g_factor, is outside the proof and covered by the stand-in).",
+  MIXED + ": proved = scale accumulation, root-unit exponents and factor ratio for all registries satisfying RegFac; bounded = "
+  "exact ratios, type preservation, ulp bound (float), path independence on the default registry.",
   standins=["standins.c02_factors", "standins.c02_warmcache"])
 P("C03", "other",
-  "Bounded: covariance of every arithmetic operator under re-expression of the operands in other units, exact in a Fraction "
-  "registry, over an exhaustive operand catalogue x 27 operator forms; dimension errors; bare-number rule; in-place forms.",
-  "Quantity arithmetic is not yet under contract; rests on the bounded stand-in only.",
-  "bounded stand-in only for now (no deductive obligations yet): operand catalogue x operator forms, exhaustive.",
+  "Deductive kernel: the ordering operators (PlainQuantity.compare: DimensionalityError iff dimensions differ, otherwise the "
+  "comparison of root-unit magnitudes) and the registry-identity guard _check. Bounded: covariance of every arithmetic operator "
+  "under re-expression of the operands in other units, exact in a Fraction registry, over an exhaustive operand catalogue x 27 "
+  "operator forms; dimension errors (also with contexts active); bare-number rule; in-place forms.",
+  "_add_sub / _mul_div / __pow__ (seven-branch offset logic) are not under contract; they rest on the bounded stand-ins.",
+  MIXED + ": proved = ordering raises iff dimensions differ; bounded = unit covariance of + - * / // % ** and in-place twins.",
   standins=["standins.c03_arith", "standins.c03_context"])
 P("C04", "proof",
   "Every UnitsContainer operation on the C04 chain is verified against a full-view contract (exponent arithmetic for all keys, "
   "no zero entry, hash reset/coherence, fresh result, operands unmodified) by a VC generator over the real AST of pint/util.py; "
   "the group laws (commutativity, associativity, u/u, u**0, (u**a)**b, eq iff same exponents, eq => hash equal, eq is an "
-  "equivalence) are lemmas over those contracts, all discharged by z3/cvc5 for all containers and exponents.",
-  "pi_theorem / column_echelon_form are bounded only (exhaustive small matrices). UnitsContainer.__init__ is not yet under contract.",
+  "equivalence) are lemmas over those contracts; PlainUnit's operators delegate to them. All discharged by z3 (two independent "
+  "builds) / cvc5 for all containers and exponents.",
+  "pi_theorem / column_echelon_form are bounded only (exhaustive small matrices). UnitsContainer.__init__ is not under contract.",
   "proof obligations cover UnitsContainer.{__copy__,copy,add,__mul__,__truediv__,__pow__,__rtruediv__,__eq__,__hash__,rename,"
-  "__getstate__,__setstate__,_normalize_nonfloat_value} and six lemma groups; Buckingham-pi is decided by a bounded stand-in.",
+  "__getstate__,__setstate__,_normalize_nonfloat_value}, PlainUnit.{__init__,__hash__,__mul__,__truediv__,__pow__} and six lemma "
+  "groups; Buckingham-pi is decided by a bounded stand-in.",
   standins=["standins.c04_pi"])
 P("C05", "other",
-  "Bounded: == / hash / ordering against an exact Fraction oracle over a catalogue of quantities (all ordered pairs, all triples "
-  "for transitivity), all same-dimension canonical unit pairs for hash agreement, bare-number comparisons.",
-  "Quantity.__eq__/compare/__hash__ are not yet under contract.",
-  "bounded stand-in only for now.", standins=["standins.c05_compare"])
+  "Deductive: PlainQuantity.compare (all four ordering operators, raises iff dimensions differ), __hash__ (hash of the "
+  "root/base-unit form, so equal physical values of multiplicative quantities hash equal), dimensionality memo, the compat "
+  "helpers eq / zero_or_nan. Bounded: == / hash / ordering against an exact Fraction oracle over a catalogue of quantities (all "
+  "ordered pairs, all triples for transitivity), all same-dimension canonical unit pairs for hash agreement, bare numbers.",
+  "Quantity.__eq__ (offset / zero / NaN branches) is not under contract; to_root_units / to_base_units / units carry assumed contracts.",
+  MIXED + ": proved = ordering and hash contracts over the assumed conversion contracts; bounded = __eq__ and the laws on the catalogue.",
+  standins=["standins.c05_compare"])
 P("C06", "other",
-  "Bounded: affine/log conversion maps exact in a Fraction registry, inverse pairs, delta units by scale only, the documented "
-  "offset calculus table in both registry modes with both operand orders and in-place forms, default_as_delta parsing.",
-  "Converters and the offset calculus branches are not yet under contract.",
-  "bounded stand-in only for now.", standins=["standins.c06_offset", "standins.c06_logcompound"])
+  "Deductive: Scale/Offset/Logarithmic converter maps equal their defining affine / exponential maps and are mutually inverse "
+  "(lemmas C06.scale_offset_inverse, C06.log_inverse); is_multiplicative / is_logarithmic flags; an explicit as_delta argument "
+  "overrides the registry default. Bounded: conversions exact in a Fraction registry, delta units by scale only, the documented "
+  "offset calculus table in both registry modes with both operand orders and in-place forms, default_as_delta parsing, "
+  "log/offset units inside compound units in autoconvert mode.",
+  "The offset calculus branches of _add_sub/_mul_div and _validate_and_extract / _add_ref_of_log_or_offset_unit are not under contract.",
+  MIXED + ": proved = converter maps and inverses for all real arguments (A1); bounded = offset calculus and two-stage conversion.",
+  standins=["standins.c06_offset", "standins.c06_logcompound"])
 P("C07", "other",
-  "Bounded: every token sequence up to length 5 (plus all well-formed ones up to 7) over 14 tokens is evaluated by the real "
-  "tree builder and compared with an independent recursive-descent reference and Python's ast; literal typing; word forms; "
-  "audit-hook run over hostile strings.",
-  "The parser (_build_eval_tree) is not yet under contract.",
-  "bounded stand-in only for now.", standins=["standins.c07_eval", "standins.c07_literals"])
+  "Deductive/structural: _power on scalars is Python's **; the evaluator's operator and priority tables map every operator text "
+  "to the matching Python operator with Python's precedence levels; no function on the parsing path calls a code-execution, "
+  "import or I/O primitive (static effects check over the real AST). Bounded: every token sequence up to length 5 (plus all "
+  "well-formed ones up to 7) over 14 tokens against an independent recursive-descent reference and Python's ast; numeric "
+  "literal spellings x contexts x registries; word forms; audit-hook run over hostile strings.",
+  "The tree builder (_build_eval_tree) and tokenizer are not under contract.",
+  MIXED + ": proved = operator tables, _power, absence of dynamic evaluation primitives; bounded = tree shape and literal typing.",
+  standins=["standins.c07_eval", "standins.c07_literals"])
 P("C08", "other",
-  "Bounded: the full cross product prefix x unit spelling x plural of the default registry against an independent decomposition, "
-  "history independence, case-insensitive lookup, delta reading, membership.",
-  "Name resolution functions are not yet under contract.",
-  "bounded stand-in only for now.", standins=["standins.c08_names", "standins.c08_alias"])
+  "Deductive: symbol / has_symbol / _get_symbol; _helper_single_adder stores exactly one entry in the exact table and (when the "
+  "table has one) exactly one entry in the case-insensitive index; _add_alias binds every alias to the aliased unit's "
+  "definition in both tables and forgets nothing; an explicit as_delta argument wins over the registry default. Bounded: the "
+  "full cross product prefix x unit spelling x plural of the default registry against an independent decomposition, history "
+  "independence, case-insensitive lookup for every definition route, delta reading, membership.",
+  "parse_unit_name / _yield_unit_triplets / _dedup_candidates and the plain parser are not under contract (named by a spec function).",
+  MIXED + ": proved = storing of spellings and the as_delta default rule; bounded = resolution of spellings.",
+  standins=["standins.c08_names", "standins.c08_alias"])
 P("C09", "other",
-  "Bounded: every canonical unit x 13 specs x 3 numeric registries, compound units up to 3 factors with exponents -3..3, "
-  "round trips of plain formats, structural check of LaTeX/HTML/siunitx, magnitude specs, objects unchanged.",
-  "Formatter helpers are not yet under contract.",
-  "bounded stand-in only for now.", standins=["standins.c09_format"])
+  "Deductive: the string helpers join_mu / join_unc / extract2 / to_name_exponent_name (separator handling, exponent sign). "
+  "Bounded: every canonical unit x 13 specs x 3 numeric registries, compound units up to 3 factors with exponents -3..3, round "
+  "trips of plain formats, structural check of LaTeX/HTML/siunitx, magnitude specs, objects unchanged.",
+  "The formatter classes are not under contract.",
+  MIXED + ": proved = four helper functions; bounded = the formats.", standins=["standins.c09_format", "standins.c09_sortfunc"])
 P("C10", "other",
-  "Bounded: an independent reader of the definition-file grammar is compared with the registry built from the bundled files "
-  "(exhaustive); generated definition sets under all line permutations and six loading paths; a catalogue of ill-formed inputs.",
-  "Definition adders / solve_dependencies are not yet under contract.",
-  "bounded stand-in only for now.", standins=["standins.c10_defs", "standins.c10_order"])
+  "Deductive: _helper_single_adder / _add_alias (what a definition line stores, redefinition policy raises exactly under "
+  "'raise'), symbol defaults. Bounded: an independent reader of the definition-file grammar is compared with the registry built "
+  "from the bundled files (exhaustive); generated definition sets under all line permutations, block positions and loading "
+  "paths including a shared disk cache; a catalogue of ill-formed inputs.",
+  "The flexparser-based statement classifiers, solve_dependencies and _build_cache are not under contract.",
+  MIXED + ": proved = the adders; bounded = grammar, order and path independence.",
+  standins=["standins.c10_defs", "standins.c10_order"])
 P("C11", "other",
   "Deductive: ContextChain.insert_contexts / remove_contexts (most recently enabled context first, in both the context list and "
   "the rule maps). Bounded: shortest-path minimality on all digraphs of <= 4 (quick) / 5 (thorough) nodes, bundled context rules "
@@ -117,46 +146,57 @@ P("C12", "other",
   "no residue in answers, shared contexts unmodified.",
   standins=["standins.c12_context_stack"])
 P("C13", "other",
-  "Deductive: the dimensionality memo is coherent (every cached entry equals the spec value, established and preserved by "
-  "_get_dimensionality) and the recursions' results do not depend on memo contents. Bounded: query/state-change sequences "
-  "compared with a fresh registry in the same declarative state.",
-  "Other memos (root units, conversion factors, parse cache, base-unit cache) are covered by the stand-in only so far.",
-  MIXED + ": proved = dimensionality memo coherence; bounded = history independence over sequences of <= 2 (quick) / 4 (thorough) operations.",
+  "Deductive: the dimensionality, root-unit and conversion-factor memos are coherent (every cached entry equals the spec value, "
+  "established and preserved by _get_dimensionality / _get_root_units / _get_conversion_factor), the recursions' results do not "
+  "depend on memo contents, the default_system setter resets the base-unit memo; structural: no process-wide functools memo on "
+  "methods whose answer depends on registry state. Bounded: query/state-change sequences compared with a fresh registry in the "
+  "same declarative state.",
+  "Parse cache and base-unit cache contents are covered by the stand-in only.",
+  MIXED + ": proved = memo coherence of the three registry memos; bounded = history independence over sequences of <= 2 (quick) / 4 (thorough) operations.",
   standins=["standins.c13_history"])
 P("C14", "other",
-  "Bounded: base units for every multiplicative unit x 7 systems against an independent reading of the @system blocks and exact "
-  "factors; group closure over all `using` DAGs on <= 4 groups with edit sequences; rule inversion catalogue; restricted "
-  "compatible units; system attribute access.",
-  "Group/System objects are not yet under contract.",
-  "bounded stand-in only for now.", standins=["standins.c14_systems"])
+  "Deductive: the default_system setter (unknown names rejected, memo reset also for None). Bounded: base units for every "
+  "multiplicative unit x 7 systems against an independent reading of the @system blocks and exact factors; group closure over "
+  "all `using` DAGs on <= 4 groups with edit sequences; rule inversion catalogue; restricted compatible units; system attribute access.",
+  "Group/System objects are not under contract.",
+  MIXED + ": proved = default_system setter; bounded = everything else.", standins=["standins.c14_systems"])
 P("C15", "other",
-  "Bounded: to_root/base/reduced/compact/preferred and ito_ twins on all containers of <= 4 units from 3 dimension classes with "
-  "exponents -3..3, exact in a Fraction registry; compact window; special magnitudes.",
-  "qto helpers are not yet under contract.",
-  "bounded stand-in only for now.", standins=["standins.c15_rewrite"])
+  "Deductive: to_reduced_units / ito_reduced_units return / perform exactly quantity.to(X) / ito(X) or leave the input alone, so "
+  "by the conversion contracts (C01/C02) dimensionality and physical value are preserved whatever X was chosen. Bounded: "
+  "to_root/base/reduced/compact/preferred and ito_ twins on all containers of <= 4 units from 3 dimension classes with "
+  "exponents -3..3, exact in a Fraction registry; compact window; special magnitudes; in-place == functional under contexts.",
+  "Quantity.to / ito / dimensionless / _get_reduced_units carry assumed contracts; to_compact / to_preferred are bounded only.",
+  MIXED + ": proved = value preservation of the reduced-units pair over assumed to/ito; bounded = the other helpers and clauses.",
+  standins=["standins.c15_rewrite", "standins.c15_context"])
 P("C16", "other",
-  "Bounded: for every function pint handles, results are compared with NumPy applied to root-unit magnitudes with the unit "
-  "implied by an independently written homogeneity table; re-expression invariance; incompatible inputs; offset units; in-place.",
-  "NumPy itself is an assumed dependency; pint's numpy_func bookkeeping is not yet under contract.",
-  "bounded stand-in only for now.", standins=["standins.c16_numpy"])
+  "Deductive: PlainUnit.__init__ / __pow__ and the output-unit table get_op_output_unit for the power-like operations. Bounded: "
+  "for every function pint handles, results are compared with NumPy applied to root-unit magnitudes with the unit implied by an "
+  "independently written homogeneity table; re-expression invariance; incompatible inputs; offset units; in-place.",
+  "NumPy itself is an assumed dependency; the implement() wrappers are not under contract.",
+  MIXED + ": proved = unit bookkeeping of power-like operations; bounded = the function catalogue.", standins=["standins.c16_numpy", "standins.c16_reductions"])
 P("C17", "other",
-  "Bounded: generated signatures (1-4 parameters, positional/keyword/default) x unit-spec kinds for wraps and check, exact in a "
-  "Fraction registry, arguments recorded inside the wrapped function.",
-  "registry_helpers is not yet under contract.",
-  "bounded stand-in only for now.", standins=["standins.c17_wraps"])
+  "Deductive: _to_units_container (the '=name' reference syntax of wraps is split exactly at the first '='). Bounded: generated "
+  "signatures (1-4 parameters, positional/keyword/default) x unit-spec kinds for wraps and check, exact in a Fraction registry, "
+  "arguments recorded inside the wrapped function.",
+  "_parse_wrap_args / _apply_defaults and the wrappers are not under contract.",
+  MIXED + ": proved = spec parsing helper; bounded = decorator behaviour.", standins=["standins.c17_wraps", "standins.c17_dimensionless", "standins.c01_check_kwargs"])
 P("C18", "other",
+  "Deductive/structural: SharedRegistryObject._check (same registry -> True, other registry -> ValueError, non-pint -> False); "
+  "every binary operator of Quantity reaches _check before combining; every exception class's __reduce__ matches its __init__. "
   "Bounded: pickle protocols 0-5 x magnitude types x random units, copy/deepcopy/tuple forms, every exception class, "
   "cross-registry operators, deep-copied registries, lazy registry in a fresh interpreter.",
   "pickle / copy machinery is an assumed dependency.",
-  "bounded stand-in only for now.", standins=["standins.c18_serialize"])
+  MIXED + ": proved = registry-identity guard and reduce/init agreement; bounded = round trips.", standins=["standins.c18_serialize"])
 P("C19", "other",
-  "Bounded: constructor forms, conversion of nominal value and standard deviation against exact factors, first-order propagation "
-  "against own derivatives, all notation strings of a small grammar against a reference reader, measurement formats.",
+  "Deductive: Measurement.rel = |error / value| and its invariance under unit scaling (lemma); join_unc. Bounded: constructor "
+  "forms, conversion of nominal value and standard deviation against exact factors, first-order propagation against own "
+  "derivatives, all notation strings of a small grammar against a reference reader, measurement formats.",
   "uncertainties is an assumed dependency.",
-  "bounded stand-in only for now.", standins=["standins.c19_measurement"])
+  MIXED + ": proved = rel; bounded = the rest.", standins=["standins.c19_measurement"])
 P("C20", "other",
-  "Exhaustive over an independently curated table of 342 standard values (SI prefixes and derived units, defining constants, "
-  "yard/pound families, temperature scales, time, CGS, information, CODATA 2022): exact equality in a Fraction registry.",
+  "Closed obligations: for each of 288 table entries z3 derives the unit's factor from the equations of the definition table as "
+  "parsed by the real parser (one equation per definition line along the reference chain) and compares it with the curated "
+  "standard value. Bounded/closed: exact equality in a Fraction registry through the public API for all 342 table rows.",
   "The table (tables/standards.json) was written from memory of the standards (no network) and is part of the trusted base.",
-  "closed comparison of the registry built by the real parser against an independent table (exhaustive over the table); rests "
-  "on C02 for the meaning of to_root_units.", standins=["standins.c20_standards"])
+  "closed comparison of the registry built by the real parser against an independent table (exhaustive over the table), once by "
+  "z3 over the definition equations and once through to_root_units (rests on C02).", standins=["standins.c20_standards"])
